@@ -55,6 +55,11 @@ def self_field(e, fname, fn):
 
 
 def run(ctx):
+    _run_main(ctx)
+    revive_restores_every_membership(ctx)
+
+
+def _run_main(ctx):
     F = ctx.facts
     ctx.explanation = ("Recycle-bin wiring: delete → to_recycled only; revive only through recycled-only filters; purge_recycled cut-off is "
                        "LessThan(LastModifiedCid, cid − RECYCLEBIN_MAX_AGE); tombstones reaped only under can_delete(cid − CHANGELOG_MAX_AGE).")
@@ -281,3 +286,50 @@ def run(ctx):
     ctx.check({"Live", "Tombstone"} <= seen, "K8-purge-tombstones", cd["fn"], "arms:Live,Tombstone", "can_delete table found",
               "can_delete is no longer a match over State::{Live, Tombstone}", file=cd["file"], line=cd["line"])
     ctx.exhaustive = True
+
+
+# ---------------------------------------------------------------------------------------------------------------------
+# revive_recycled restores direct memberships by building one modify list per group and applying each with
+# internal_modify. Several revived entries can share a group, so the per-group list has to ACCUMULATE one
+# Present(member, entry) per revived entry; a map that keeps one value per key (collect of (group, list) pairs, plain insert)
+# silently drops all but the last entry. (added after seeded change C26: the accumulation loop rewritten as iterator + collect)
+
+def revive_restores_every_membership(ctx):
+    from .lib.x_chain import chain
+    R = "K4-revive-restores-every-membership"
+    f = ctx.fn(LIB, "kanidmd_lib::server::recycle::" + QSW + "revive_recycled")
+    # the loop that applies the per-group modify lists
+    loops = []
+    for n in walk(f["body"]):
+        if n.get("e") == "match" and "ForLoopDesugar" in n.get("src", ""):
+            if any(c.get("e") == "mcall" and c.get("name") == "internal_modify" for c in walk(n)):
+                it = unwrap(n["scrut"])
+                src = it["args"][0] if it.get("e") == "call" and it.get("args") else it
+                root, _ = chain(src)
+                loops.append((n, root))
+    if not ctx.check(len(loops) >= 1 and loops[0][1] is not None, R, f["fn"], "apply-loop-found", "for (group, mods) in <map> { internal_modify(..) }",
+                     "the loop applying the per-group membership modify lists was not found (shape not understood)", file=f["file"], line=f["line"]):
+        return
+    L = loops[0][1]
+    init = None
+    for n in walk(f["body"]):
+        if n.get("s") == "let" and n["pat"].get("p") == "bind" and n["pat"]["local"] == L and "init" in n:
+            init = n["init"]
+    names = chain(init)[1] if init is not None else []
+    collected = "collect" in names or any(c.get("e") == "mcall" and c.get("name") == "collect" for c in walk(init or {}))
+    accum = False
+    for c in walk(f["body"]):
+        if c.get("e") == "mcall" and c.get("name") in ("and_modify", "or_default", "or_insert_with", "or_insert"):
+            r, nm = chain(c["recv"])
+            if r == L and "entry" in nm:
+                if c.get("name") == "and_modify":
+                    accum = accum or any(x.get("e") == "mcall" and x.get("name") in ("push_mod", "push", "extend", "append") for x in walk(c["args"]))
+        if c.get("e") == "mcall" and c.get("name") in ("push_mod", "push", "extend", "append"):
+            r, nm = chain(c["recv"])
+            if r == L and ("entry" in nm or "get_mut" in nm):
+                accum = True
+    ctx.check(accum and not collected, R, f["fn"], "per-group-modlist-accumulates", "map.entry(group).and_modify(push_mod).or_insert(..)",
+              "revive_recycled builds the per-group membership modify lists " + ("by collecting (group, list) pairs into a map, which keeps only the LAST list per group"
+              if collected else "without accumulating into an existing list for the same group") + ": when one revive covers two or more entries that were direct "
+              "members of the same group, only one of them gets its membership back and the revive still reports success", file=f["file"],
+              line=(init or f).get("line"))
